@@ -2270,8 +2270,9 @@ class Component_Decl(Base):  # R442
             char_length = Char_Length(char_length)
         if newline.startswith("="):
             init = Component_Initialization(newline)
-        else:
-            assert newline == "", repr(newline)
+        elif newline:
+            # Unexpected text after the component declaration: no match.
+            return None
         return name, array_spec, char_length, init
 
     def tostr(self):
@@ -3093,7 +3094,7 @@ class Ac_Implied_Do(Base):
         :rtype: Optional[Tuple[Ac_Value_List, Ac_Implied_Do_Control]]
 
         """
-        if string[0] + string[-1] != "()":
+        if not string or string[0] + string[-1] != "()":
             return None
         line, repmap = string_replace_map(string[1:-1].strip())
         i = line.rfind("=")
@@ -3101,7 +3102,9 @@ class Ac_Implied_Do(Base):
             # No "=" or it is "==" so no match.
             return None
         j = line[:i].rfind(",")
-        assert j != -1
+        if j == -1:
+            # No ac-value-list before the implied-do control so no match.
+            return None
         s1 = repmap(line[:j].rstrip())
         s2 = repmap(line[j + 1 :].lstrip())
         return Ac_Value_List(s1), Ac_Implied_Do_Control(s2)
